@@ -9,6 +9,7 @@ from fractions import Fraction
 
 from .core import TOP, Const, Agg, Ref, FnV, Domain, enum, some, NONE, UNIT
 from ..numnames import classify, OPS
+from ..facts import fmt_template as F_fmt
 
 
 class Sym:
@@ -155,10 +156,23 @@ def pred_const(m, k):
 
 
 class TermDomain(Domain):
-    def __init__(self, oracle=None, no_inline=()):
+    def __init__(self, oracle=None, no_inline=(), uninterp=None):
         self.oracle = oracle
         self.no_inline = set(no_inline)
-        self.effects = []
+        self.uninterp = uninterp  # name -> bool: the call becomes an uninterpreted term
+
+    @staticmethod
+    def log(store):
+        return store.get(("log",), ())
+
+    @staticmethod
+    def with_log(store, ev):
+        s = dict(store)
+        s[("log",)] = store.get(("log",), ()) + (ev,)
+        if len(s[("log",)]) > 48:
+            from .core import Undecided
+            raise Undecided("a path performs more than 48 effects: an effect loop the analysis cannot bound")
+        return s
 
     def should_inline(self, name):
         return name not in self.no_inline
@@ -283,13 +297,17 @@ class TermDomain(Domain):
         if r is not None:
             return r
         c = classify(name)
-        if c is None:
-            return None
-        ty, m, trait = c
-        if ty == "Rational":
-            return None
-        if ty in ("Ratio", "BigInt", "num"):
-            return self.num_call(it, ty, m, trait, args, vals, store)
+        if c is not None:
+            ty, m, trait = c
+            if ty in ("Ratio", "BigInt", "num"):
+                r = self.num_call(it, ty, m, trait, args, vals, store)
+                if r is not None:
+                    return r
+        if self.uninterp is not None and self.uninterp(name):
+            r = it.std_call(name, args, store)
+            if r is not None:
+                return r
+            return [(T("call:" + name, *vals), store)]
         return None
 
     def num_call(self, it, ty, m, trait, args, vals, store):
@@ -385,6 +403,24 @@ class TermDomain(Domain):
 
     def std_models(self, it, name, args, vals, store):
         a = vals[0] if vals else None
+        if name.startswith("core::fmt::rt::Argument::<'_>::new_") and len(vals) == 1:
+            return [(T(name.split("::new_")[-1], a), store)]
+        if name == "std::fmt::Arguments::<'a>::new" and len(vals) == 2:
+            tpl = a.v if isinstance(a, Const) and isinstance(a.v, bytes) else None
+            fs = vals[1].fields if isinstance(vals[1], Agg) else (vals[1],)
+            return [(T("fmt", Const(tuple(F_fmt(tpl))) if tpl is not None else TOP, *fs), store)]
+        if name == "std::fmt::Arguments::<'a>::from_str" and len(vals) == 1:
+            return [(T("fmt", Const((a.v,)) if isinstance(a, Const) else TOP), store)]
+        if name.endswith("IntoIterator>::into_iter") and isinstance(a, IterV):
+            return [(a, store)]
+        if name == "std::iter::Iterator::rev" and isinstance(a, IterV):
+            return [(IterV(tuple(reversed(a.items[a.pos:])), 0), store)]
+        if name.endswith("as std::iter::Iterator>::next") and isinstance(a, IterV):
+            if a.pos < len(a.items):
+                return [(some(a.items[a.pos]), it.write_ref(store, args[0], IterV(a.items, a.pos + 1)))]
+            return [(NONE, store)]
+        if name == "std::vec::Vec::<T, A>::is_empty" and isinstance(a, VecV):
+            return [(Const(len(a.items) == 0), store)]
         if name in ("std::convert::Into::into", "std::convert::From::from") and len(vals) == 1 \
                 and (isinstance(a, Const) or is_num(a)):
             return [(a, store)]
